@@ -229,9 +229,9 @@ class ColangParser:
                 # priority shorthand, from "priority 2" to 'meta {"priority": 2}'
                 (r"^\s*priority\s*([\.\d]+)\s*$", r'meta {"priority": \1}'),
                 # += operator
-                (r"^(\$[\w.]+)\s*\+=", r"set \1 = \1 +"),
+                (r"^(\$[\w.]+)\s*\+=\s*(.*)$", r"set \1 = \1 + (\2)"),
                 # -= operator
-                (r"^(\$[\w.]+)\s*\-=", r"set \1 = \1 -"),
+                (r"^(\$[\w.]+)\s*\-=\s*(.*)$", r"set \1 = \1 - (\2)"),
                 # Turn 'new' into 'infer'
                 (r"^new( |$)", r"infer\1"),
                 (r"^create( |$)", r"infer\1"),
